@@ -42,6 +42,10 @@ def cases(tier, seed):
             yield dict(kind='twin', H=H, P=P, rsd=bool((H + P) % 2))
     for n in ([0, 1, 5] if tier == 'quick' else [0, 1, 2, 5, 9]):
         yield dict(kind='searchsorted', nh=n)
+    # thread-block boundaries depend only on (table length, Nthread): sweep every length densely
+    top = 160 if tier == 'quick' else 1024
+    for lo in range(0, top, 16):
+        yield dict(kind='blocks', lo=lo, hi=min(lo + 16, top))
 
 
 def tracers(sub):
@@ -262,5 +266,39 @@ def run_searchsorted(case):
     return dict(problems=probs, evals=nrun, nt=[('searchsorted', nh)], states=max(nrun, 1), transitions=1, traces=nrun, extra=dict(searchsorted_runs=nrun))
 
 
+def run_blocks(case):
+    """every table length in [lo, hi) x Nthread 1..16, all hosts and particles selected (randoms 0): the per-thread
+    block boundaries must tile the table for every (length, Nthread) - compared bitwise with Nthread = 1"""
+    from abacusnbody.hod.GRAND_HOD import gen_gal_cat
+    probs, nt = [], []
+    n = 0
+    tr = tracers((0,))
+    for H in range(case['lo'], case['hi']):
+        ref = None
+        for nthread in range(1, 17):
+            hd, pd = table(H, H)
+            hd['hrandoms'][:] = 0.0
+            hd['hmultis'][:] = 1.0
+            hd['hmass'][:] = 1e15
+            pd['prandoms'][:] = 0.0
+            pd['pweights'][:] = 1.0
+            pd['phmass'][:] = 1e15
+            out = gen_gal_cat(hd, pd, tr, PARAMS, Nthread=nthread, enable_ranks=False, rsd=False, nfw=False, write_to_disk=False, verbose=False)
+            n += 1
+            f = flat(out)
+            if ref is None:
+                ref = f
+                if H and (f.get('LRG.Ncent') != H):
+                    probs.append(dict(sig='blocks:not-all-hosts-selected', msg=f'harness: H={H} gave Ncent={f.get("LRG.Ncent")}'))
+            else:
+                d = same(ref, f)
+                if d:
+                    probs.append(dict(sig='blocks:differs-from-1-thread', msg=f'table length {H}, Nthread={nthread}: {d}'))
+                    break
+            if nthread > 1 and H:
+                nt.append(('blocks', H, nthread))
+    return dict(problems=probs[:3], evals=n, nt=nt, states=1, transitions=1, traces=n, extra=dict(block_sweep_runs=n))
+
+
 def run(case):
-    return {'compiled': run_compiled, 'twin': run_twin, 'searchsorted': run_searchsorted}[case['kind']](case)
+    return {'blocks': run_blocks, 'compiled': run_compiled, 'twin': run_twin, 'searchsorted': run_searchsorted}[case['kind']](case)
